@@ -5,12 +5,13 @@ open Model
 
 type path = Full | Restore | Rump | Incr
 type fc = { dbblack : string list; dbwhite : string list; keyblack : string list; keywhite : string list; slots_of : int list (* indices into the population *); lua : bool }
-type case = { path : path; fc : fc; pop : (int * string) list; scripts : string list (* incr: script commands in the stream *) }
+type case = { path : path; fc : fc; pop : (int * string) list; scripts : string list (* incr: script commands in the stream *);
+             tdb : int (* target.db: -1 = keep the source database; the lists always speak about SOURCE databases *) }
 
 let id = "C06"
 let rule = "populations of 14 (database, key) pairs - keys that equal, extend, are proper prefixes of or differ in letter case from a listed prefix, binary keys, \
-hash-tagged keys, the tool's checkpoint key and its neighbours; databases 0,1,3,10,13 against lists like [1] / [1,3] (1 must not match 10 or 13) - under 9 \
-configurations (no filter, key blacklist, key whitelist, db blacklist, db whitelist, both, slot list, filter.lua, key + lua), each population pushed through the four \
+hash-tagged keys, the tool's checkpoint key and its neighbours; databases 0,1,3,10,13 against lists like [1] / [1,3] (1 must not match 10 or 13) - under 11 \
+configurations (no filter, key blacklist, key whitelist, db blacklist, db whitelist, both, slot list, filter.lua, key + lua), each population pushed - half of the time with target.db set to 0, 1, 3 or 10, which must not change which SOURCE databases are copied - through the four \
 real paths: full sync worker pool (generated RDB, hook), restore worker pool (hook), rump executor (fakeredis source, hook) and the incremental parser/sender \
 (RESP stream of select and set/incr/DEL/hset/unlink carrying the keys, plus eval/EVALSHA/script/OPINFO in mixed case, hook); the set of keys arriving on the target is compared with the configuration's \
 meaning and with the model's path function; non-trivial = a configuration with at least one list; distinct by wire line"
@@ -43,8 +44,12 @@ let gen_pop st =
 let gen st tier =
   let per = if tier = "thorough" then 40 else 4 in
   (* grouped by path and configuration so that the incremental probe runs a configuration's cases together *)
-  List.concat_map (fun path -> List.concat_map (fun fc -> List.init per (fun _ ->
-      { path; fc; pop = gen_pop st; scripts = (if path = Incr then [ "eval"; "EVALSHA"; "Script"; "OPINFO"; "opinfo" ] else []) })) configs)
+  List.concat_map (fun path -> List.concat_map (fun fc ->
+      (* the second half of each group runs with target.db set - to a database the lists exclude, or to one they allow *)
+      let t = rnd_pick st [ 0; 1; 3; 10 ] in
+      List.init per (fun i ->
+      { path; fc; pop = gen_pop st; scripts = (if path = Incr then [ "eval"; "EVALSHA"; "Script"; "OPINFO"; "opinfo" ] else []);
+        tdb = (if i >= (per + 1) / 2 then t else -1) })) configs)
     [ Incr; Full; Restore; Rump ]
 let corpus = []
 
@@ -61,12 +66,12 @@ let shape i k = match i mod 5 with 0 -> [ "set"; k; "v" ] | 1 -> [ "incr"; k ] |
 let to_line c =
   match c.path with
   | Full | Restore ->
-      C07.to_line { C07.mode = (if c.path = Full then "sync" else "restore"); parallel = 3; tdb = -1; dbblack = c.fc.dbblack; dbwhite = c.fc.dbwhite;
+      C07.to_line { C07.mode = (if c.path = Full then "sync" else "restore"); parallel = 3; tdb = c.tdb; dbblack = c.fc.dbblack; dbwhite = c.fc.dbwhite;
                     keyblack = c.fc.keyblack; keywhite = c.fc.keywhite; slots = slot_strings c; filterlua = c.fc.lua; units = units c; fail = None }
   | Rump ->
       let payload = string_of_bytes (encode_dump Valgen.fmt_g17 (LString (bs "v"))) in
       let dbs = List.sort_uniq compare (List.map fst c.pop) in
-      C16.to_line { C16.tdb = -1; policy = "rewrite"; threshold = 1000000000; dbblack = c.fc.dbblack; dbwhite = c.fc.dbwhite; keyblack = c.fc.keyblack; keywhite = c.fc.keywhite;
+      C16.to_line { C16.tdb = c.tdb; policy = "rewrite"; threshold = 1000000000; dbblack = c.fc.dbblack; dbwhite = c.fc.dbwhite; keyblack = c.fc.keyblack; keywhite = c.fc.keywhite;
                     scancount = 5; tgt = []; note = ""; keyfile = None;
                     src = List.map (fun db -> (db, [ List.filter_map (fun (d, k) -> if d = db then Some { C16.key = k; payload; pttl = -1; vanish = "-"; value = None } else None) c.pop ])) dbs }
   | Incr ->
@@ -74,12 +79,12 @@ let to_line c =
       List.iteri (fun i (db, k) -> if db <> !cur then (cur := db; cmds := [ "select"; string_of_int db ] :: !cmds); cmds := shape i k :: !cmds) c.pop;
       List.iter (fun s -> cmds := [ s; "return 1"; "0" ] :: !cmds) c.scripts;
       Incrgen.to_line { Incrgen.cfg = { Incrgen.dbblack = c.fc.dbblack; dbwhite = c.fc.dbwhite; keyblack = c.fc.keyblack; keywhite = c.fc.keywhite; lua = c.fc.lua;
-                                        tdb = -1; resume = false; scount = 100; ssize = 1000000 };
+                                        tdb = c.tdb; resume = false; scount = 100; ssize = 1000000 };
                         startdb = 0; base = 0; cmds = List.map (fun w -> (w, 0)) (List.rev !cmds); cuts = [ (0, 0) ] }
 
 let path_name = function Full -> "full sync" | Restore -> "restore" | Rump -> "rump" | Incr -> "incremental sync"
 let show c =
-  Printf.sprintf "%s; db.black=[%s] db.white=[%s] key.black=[%s] key.white=[%s] slots=[%s] filter.lua=%b; population: %s" (path_name c.path)
+  Printf.sprintf "%s; target.db=%d db.black=[%s] db.white=[%s] key.black=[%s] key.white=[%s] slots=[%s] filter.lua=%b; population: %s" (path_name c.path) c.tdb
     (String.concat "," c.fc.dbblack) (String.concat "," c.fc.dbwhite) (String.concat "," (List.map String.escaped c.fc.keyblack)) (String.concat "," (List.map String.escaped c.fc.keywhite))
     (String.concat "," (slot_strings c)) c.fc.lua (String.concat " " (List.map (fun (d, k) -> Printf.sprintf "db%d/%S" d k) c.pop))
 
@@ -129,6 +134,9 @@ let judge c obs =
           | _ -> ()) (List.concat groups);
         (List.rev !keys, List.rev !scr) in
   let norm l = List.sort compare l in
+  (* with target.db set every copied key lands in that database *)
+  let want = List.map (fun (db, k) -> ((if c.tdb >= 0 then c.tdb else db), k)) want in
+  let model = List.map (fun (db, k) -> ((if c.tdb >= 0 then c.tdb else db), k)) model in
   let pname = match c.path with Full -> "full" | Restore -> "restore" | Rump -> "rump" | Incr -> "incr" in
   if norm got <> norm want then begin
     let missing = List.filter (fun x -> not (List.mem x got)) want and extra = List.filter (fun x -> not (List.mem x want)) got in
